@@ -119,8 +119,19 @@ class H(explore.Harness):
             return None
         return 404, b"", None
 
+    def _response(self, c, tag):
+        """The accessory's answer to request `tag` on connection c, in this configuration's style.  Body-less styles carry the tag in a header."""
+        style = self.p.get("resp")
+        if style == "204":  # no Content-Length at all: the message ends at the blank line
+            return f"HTTP/1.1 204 No Content\r\nX-Tag: {c.cid}:{tag}\r\n\r\n".encode()
+        if style == "204-cl0":
+            return f"HTTP/1.1 204 No Content\r\nContent-Length: 0\r\nX-Tag: {c.cid}:{tag}\r\n\r\n".encode()
+        return ipacc.http_response(200, f"{c.cid}:{tag}".encode(), "text/plain")
+
     def _wire(self, c, plain):
         style = self.p.get("resp")
+        if style in ("204", "204-cl0"):
+            style = None
         if style:
             plain = ipacc.restyle(plain, style)  # e.g. chunked, as real accessories answer /accessories and /characteristics
         k = self.p.get("split")
@@ -161,6 +172,9 @@ class H(explore.Harness):
             elif q:
                 ev.append(f"deliver:{c.cid}")
                 ev.append(f"deliver-split:{c.cid}")
+                if self.p.get("combo"):
+                    ev.append(f"deliver+event:{c.cid}")  # the response and an event reach the controller in ONE read
+                    ev.append(f"event+deliver:{c.cid}")
             else:
                 ev.append(f"unsolicited:{c.cid}")
             if not (self.partial and self.partial[0] is c):
@@ -219,7 +233,7 @@ class H(explore.Harness):
         elif kind in ("deliver", "deliver-split"):
             c = self.net.conns[int(arg)]
             tag = self.responder[c.cid].pop(0)
-            wire = self._wire(c, ipacc.http_response(200, f"{c.cid}:{tag}".encode(), "text/plain"))
+            wire = self._wire(c, self._response(c, tag))
             live = not c.transport.is_closing()
             caller = self.tasks.get(int(tag)) if tag.isdigit() else None
             if kind == "deliver":
@@ -235,6 +249,21 @@ class H(explore.Harness):
                     h = min(self.p["split"], 1024) + 18  # exactly the first block
                 self.partial = (c, wire[h:], tag)
                 c.send(wire[:h])
+        elif kind in ("deliver+event", "event+deliver"):
+            c = self.net.conns[int(arg)]
+            tag = self.responder[c.cid].pop(0)
+            self.nev += 1
+            w_r = self._wire(c, self._response(c, tag)) if kind == "deliver+event" else None
+            w_e = self._wire(c, ipacc.event_message(ipacc.jbody({"e": self.nev}) if not self.secure else ipacc.jbody({"characteristics": [{"aid": 1, "iid": 9, "value": self.nev}]})))
+            if w_r is None:
+                w_r = self._wire(c, self._response(c, tag))  # (secure: blocks are numbered in the order they are produced)
+            live = not c.transport.is_closing()
+            caller = self.tasks.get(int(tag)) if tag.isdigit() else None
+            c.send(w_r + w_e if kind == "deliver+event" else w_e + w_r)
+            if live and caller is not None and not caller.done() and self._in_time(int(tag)):
+                self.expect_ok[int(tag)] = f"{c.cid}:{tag}"
+            if live:
+                self.expect_ev = getattr(self, "expect_ev", []) + [self.nev]
         elif kind == "deliver-rest":
             c, rest, tag = self.partial
             self.partial = None
@@ -245,7 +274,7 @@ class H(explore.Harness):
                 self.expect_ok[int(tag)] = f"{c.cid}:{tag}"
         elif kind == "unsolicited":
             c = self.net.conns[int(arg)]
-            c.send(self._wire(c, ipacc.http_response(200, f"{c.cid}:U".encode(), "text/plain")))
+            c.send(self._wire(c, self._response(c, "U")))
         elif kind == "event":
             c = self.net.conns[int(arg)]
             self.nev += 1
@@ -287,7 +316,7 @@ class H(explore.Harness):
                 continue
             exc = t.exception()
             if exc is None:
-                body = bytes(t.result().body).decode()
+                body = bytes(t.result().body).decode() or dict(t.result().headers).get("X-Tag", "")
                 cid, _, tag = body.partition(":")
                 if tag != str(k):
                     self.viol.append(("request-completed-with-foreign-response", {"caller": k, "got": body}))
@@ -325,6 +354,12 @@ class H(explore.Harness):
                 c = self.net.conns[self.sent_on[str(k)]]
                 if not c.client_open or not c.peer_open or (c.transport is not None and c.transport.is_closing()):
                     self.viol.append(("outstanding-request-not-failed-promptly-after-connection-abandoned-or-dropped", {"caller": k, "cid": c.cid, "client_open": c.client_open, "peer_open": c.peer_open}))
+        if not self.loop.has_ready() and getattr(self, "expect_ev", None):
+            seen = set(self._seen_events())
+            lost = [e for e in self.expect_ev if e not in seen]
+            self.expect_ev = []
+            if lost:
+                self.viol.append(("event-in-the-same-read-as-a-response-lost", {"events": lost, "seen": sorted(seen)}))
         evs = self._seen_events()
         if len(evs) != len(set(evs)):
             self.viol.append(("event-delivered-twice", {"events": evs}))
@@ -444,7 +479,7 @@ def case_splits(p):
     try:
         _take(probe, "req:0")
         c = probe._cur()
-        n = len(ipacc.restyle(ipacc.http_response(200, f"{c.cid}:0".encode(), "text/plain"), p["resp"]) if p.get("resp") else ipacc.http_response(200, f"{c.cid}:0".encode(), "text/plain"))
+        n = len(ipacc.restyle(probe._response(c, "0"), p["resp"]) if p.get("resp") and not p["resp"].startswith("204") else probe._response(c, "0"))
     finally:
         probe.close()
     nrun = 0
@@ -530,6 +565,11 @@ def run(ctx):
         # the same spaces under other environments: byte-wise reads; chunked responses in reads that end inside a block
         dict(limit=1, callers=2, P=0, secure=True, env=dict(delivery="bytes")),
         dict(limit=2, callers=2, P=0, secure=False, resp="chunked", env=dict(delivery="3/4")),
+        # body-less answers (what a write gets): without any Content-Length, and with Content-Length: 0; a response and an event in ONE read
+        dict(limit=1, callers=2, P=0, secure=False, resp="204", combo=True),
+        dict(limit=1, callers=2, P=0, secure=True, resp="204", combo=True),
+        dict(limit=2, callers=2, P=0, secure=False, resp="204-cl0", combo=True),
+        dict(limit=1, callers=2, P=0, secure=False, combo=True),
     ]
     depth = 5 if quick else 6
     work = []
@@ -542,7 +582,7 @@ def run(ctx):
         work += [(p, r, d) for r in rs]
     ctx.bounds.update(depth=depth, configs=configs)
     ctx.pmap(_work, work)
-    styles = [None, "chunked", "chunked-2", "chunked-lower", "lower"] + ([] if quick else ["upper", "mixed", "lws", "extra-headers", "no-ctype"])
+    styles = [None, "chunked", "chunked-2", "chunked-lower", "lower", "204", "204-cl0"] + ([] if quick else ["upper", "mixed", "lws", "extra-headers", "no-ctype"])
     ctx.pmap(_work_splits, [dict(limit=1, callers=2, P=0, secure=sec, resp=st) for sec in (False, True) for st in styles])
     ctx.bounds.update(split_sweep="every two-piece split position x response style x {plain, secure} x {with, without an interleaved event}", split_styles=styles)
     ctx.exhaustive = not ctx.acc.capped
